@@ -1,4 +1,4 @@
-import GrinVerif.Lemmas.PoolAvail
+import GrinVerif.Lemmas.PoolBucket
 /-! C14 — the transaction pool always holds a jointly valid, fee-paying, mineable set.
 
 Model: `GrinVerif/Model/Pool.lean` (pool/src/pool.rs, pool/src/transaction_pool.rs).
@@ -14,7 +14,8 @@ stated explicitly below, each with a kernel-checked witness.
 Sections: soundness of the aggregate check; `pool_inv` (histories without eviction); eviction
 (what it breaks); admission; inputs of pooled transactions across evictions at capacity
 (`admitted_inputs_available`, `child_of_evicted_refused`, `admission_at_capacity` — all
-histories); weight limit and submission form (`overweight_never_admitted`,
+histories); which transaction `evict_transaction` removes (`evicted_is_leaf_when_…`, tree witnesses);
+weight limit and submission form (`overweight_never_admitted`,
 `form_independent_admission`); the mineable set. -/
 namespace GV.Props.C14
 open GV.Pool
@@ -445,6 +446,130 @@ example : staleRun (wc, {}) [] (wOps ++ [.submit .broadcast wD false true]) = [w
 example : Avail (utxoIds wc) (run (wc, {}) (wOps.take 2)).2.txpool.txs :=
   (admission_validates_pool (c := wc) (s := (run (wc, {}) (wOps.take 1)).2) .broadcast wB true (by decide)
     (show _ = ((run (wc, {}) (wOps.take 2)).2, none) by decide)).1
+
+/-! ## which transaction `evict_transaction` removes
+
+`bucket_transactions` (pool/src/pool.rs) walks the entries in insertion order; `stepKind` names
+the branch each one takes: `fresh` (no pooled parent: own bucket), `merged` (one parent bucket and
+the aggregate with it - cut-through applied - pays at least the bucket's rate: joins it), `own`
+(would lower the bucket's rate: own bucket at the end, but its outputs stay indexed under the
+PARENT's bucket), `rejected` (two inputs created in the pool, or a descendant of such a
+transaction).  Buckets are sorted by (fee rate descending, age) and the LAST transaction of the
+LAST bucket is evicted. -/
+
+/-- **evicted_is_leaf_when_no_child_lowers_its_bucket_rate** — the exact fee condition under
+which the walk is trivially right: every dependent transaction has exactly one input created in
+the pool and joins its parent's bucket, i.e. `Σ fees / weight(aggregate of bucket ++ [t]) ≥` the
+bucket's current rate (integer division, cut-through applied) for every such `t` (`calmB`).  Then
+— for pools whose insertion order respects dependencies and that create no commitment twice — the
+evicted transaction is a leaf of the dependency forest: no pooled transaction spends one of its
+outputs. -/
+theorem evicted_is_leaf_when_no_child_lowers_its_bucket_rate {c : Ctx} {p : Pool} {E : Tx}
+    (hcalm : calmB c .noLimit {} p.txs = true) (hnd : (allOuts p.txs).Nodup) (hord : Ordered p.txs)
+    (hE : p.evictee c = some E) : ∀ u ∈ p.txs, ∀ o ∈ E.outs, o ∉ u.ins := by
+  intro u hu o ho hi
+  exact evictee_leaf_of_calm hcalm hnd hord hE u hu ⟨o, ho, hi⟩
+
+/-- … and therefore such an eviction keeps every input available (no orphan at all) -/
+theorem evict_keeps_inputs_available_when_calm {c : Ctx} {p : Pool}
+    (hcalm : calmB c .noLimit {} p.txs = true) (hnd : (allOuts p.txs).Nodup) (hord : Ordered p.txs)
+    (hav : Avail (utxoIds c) p.txs) : Avail (utxoIds c) (p.evict c).txs := by
+  intro t ht i hi
+  obtain ⟨htp, h⟩ := evict_orphans (c := c) hav t ht
+  rcases h i hi with h | h | ⟨E, hE, _, hEo⟩
+  · exact Or.inl h
+  · exact Or.inr h
+  · exact absurd hi (evicted_is_leaf_when_no_child_lowers_its_bucket_rate hcalm hnd hord hE t htp i hEo)
+
+/-
+NOT PROVED (conjectured exact characterisation; the harness checks it on the real pool after every
+eviction and it held in every run): if NO transaction is `rejected` and the evicted transaction
+itself did not take the `own` branch, it is a leaf.  Consequently a ROOT of the forest is never
+evicted while a descendant that went through the buckets stays.  Sketch: a child `u` of a
+`fresh`/`merged` transaction `E` looks up E's bucket `j`; if `u` merges it sits behind `E` in `j`;
+if it takes `own`, then `u.feeRate < rate(j)` at that time (from `Σfee/(W) < rate(j)` with
+`W ≤ weight(j) + weight(u)`), the rate of `j` never decreases and nobody joins `u`'s bucket, so `j`
+sorts before `u`'s bucket and is not the last one.  Missing: monotonicity of bucket rates,
+sortedness of `sortBuckets`, and the weight inequality for `aggregate`.
+The converse cases are real (next theorems): an `own` transaction that pays least is evicted with
+its descendants staying — the recorded finding C14-evict-breaks-joint-validity, mechanism (b).
+-/
+
+/-! ### witness: the tree P ← D, D ← E, D ← F (`max_pool_size = 3`)
+
+P pays 200 per weight.  D (two outputs) would lower P's bucket rate even after cut-through
+(9706 / 49 = 198 < 200): own bucket, rate 102.  E and F spend D's outputs; they are looked up under
+P's bucket and each would lower it (150, 198 < 200): own buckets, rates 100 and 196.  D, E and F
+aggregated pay 12113 / 52 = 232 per weight — MORE than P: if D's descendants were bucketed with D,
+that bucket would sort before P's and the root P would be evicted with its whole subtree staying.
+The code as written evicts E, the cheapest leaf. -/
+def tc : Ctx where
+  cfg := { maxPool := 3, feeBase := 2 }
+  outs := [od 1 100000, od 2 100000, od 11 94993, od 12 45147, od 13 45147, od 14 42640, od 15 40240, od 16 75000,
+           od 17 45193, od 18 45193, od 19 42586, od 20 40286]
+  head := { utxo := [(1, 0, false), (2, 0, false)], nrd := [], height := 5 }
+  ver := 3
+def tP : Tx := { ins := [1], outs := [11], kers := [pk 1 5007] }
+def tD : Tx := { ins := [11], outs := [12, 13], kers := [pk 2 4699] }
+def tE : Tx := { ins := [12], outs := [14], kers := [pk 3 2507] }
+def tF : Tx := { ins := [13], outs := [15], kers := [pk 4 4907] }
+/-- the well-paying outsider whose admission triggers the eviction -/
+def tN : Tx := { ins := [2], outs := [16], kers := [pk 5 25000] }
+def tOps : List Op := [tP, tD, tE, tF, tN].map fun t => .submit .broadcast t false true
+
+theorem tree_evicts_cheapest_leaf :
+    stepKinds tc .noLimit {} [tP, tD, tE, tF] = [.fresh, .own, .own, .own] ∧
+    (tP.feeRate, tD.feeRate, tE.feeRate, tF.feeRate) = (200, 102, 100, 196) ∧
+    ((aggregate [tD, tE, tF]).toOption.map (·.feeRate)) = some 232 ∧
+    (run (tc, {}) (tOps.take 4)).2.txpool.txs = [tP, tD, tE, tF] ∧
+    (run (tc, {}) (tOps.take 4)).2.txpool.evictee tc = some tE ∧
+    (run (tc, {}) tOps).2.txpool.txs = [tP, tD, tF, tN] ∧
+    orphans (utxoIds tc) (run (tc, {}) tOps).2.txpool.txs = [] ∧
+    jointlyValidB tc.outs (utxoIds tc) (run (tc, {}) tOps).2.txpool.txs = true := by
+  decide
+
+/-- the same tree with D paying least (rate 100; E 104, F 196): the code evicts the INNER node D and
+E, F stay with inputs that exist nowhere — mechanism (b) of the recorded finding (a transaction in
+its own bucket whose descendants are indexed under its parent's bucket) on a tree. -/
+def tD' : Tx := { ins := [11], outs := [17, 18], kers := [pk 2 4607] }
+def tE' : Tx := { ins := [17], outs := [19], kers := [pk 3 2607] }
+def tF' : Tx := { ins := [18], outs := [20], kers := [pk 4 4907] }
+def tOps' : List Op := [tP, tD', tE', tF', tN].map fun t => .submit .broadcast t false true
+
+theorem tree_evicts_inner_node_when_it_pays_least :
+    stepKinds tc .noLimit {} [tP, tD', tE', tF'] = [.fresh, .own, .own, .own] ∧
+    (run (tc, {}) (tOps'.take 4)).2.txpool.evictee tc = some tD' ∧
+    (run (tc, {}) tOps').2.txpool.txs = [tP, tE', tF', tN] ∧
+    orphans (utxoIds tc) (run (tc, {}) tOps').2.txpool.txs = [(tE', 17), (tF', 18)] := by
+  decide
+
+/-- non-vacuity of `evicted_is_leaf_when_no_child_lowers_its_bucket_rate`: a tree in which every
+child raises its bucket's rate (one bucket [P, D, E, F]): calm, ordered, no commitment twice; the
+last one goes -/
+def cP : Tx := { ins := [1], outs := [11], kers := [pk 1 2507] }
+def cD : Tx := { ins := [11], outs := [12, 13], kers := [pk 2 9207] }
+def cE : Tx := { ins := [12], outs := [14], kers := [pk 3 7507] }
+def cF : Tx := { ins := [13], outs := [15], kers := [pk 4 7507] }
+def cc : Ctx := { tc with outs := [od 1 100000, od 11 97493, od 12 44143, od 13 44143, od 14 36636, od 15 36636] }
+def cPool : Pool := [cP, cD, cE, cF].map fun t => ⟨t, .broadcast⟩
+
+theorem ordered_of_check (txs : List Tx)
+    (h : ∀ n, n < txs.length → ∀ u ∈ txs.take (n + 1), ∀ t ∈ (txs.drop n).head?, ∀ o ∈ t.outs, o ∉ u.ins) :
+    Ordered txs := by
+  intro pre t post heq u hu o ho
+  have hn : pre.length < txs.length := by rw [heq]; simp
+  refine h pre.length hn u ?_ t ?_ o ho
+  · have ht : (pre ++ t :: post).take (pre.length + 1) = pre ++ [t] := by
+      rw [show pre ++ t :: post = (pre ++ [t]) ++ post by simp]
+      exact List.take_left' (by simp)
+    rw [heq, ht]; exact hu
+  · rw [heq]; simp
+
+example : stepKinds cc .noLimit {} cPool.txs = [.fresh, .merged, .merged, .merged] ∧
+    cPool.evictee cc = some cF := by decide
+example : ∀ u ∈ cPool.txs, ∀ o ∈ cF.outs, o ∉ u.ins :=
+  evicted_is_leaf_when_no_child_lowers_its_bucket_rate (c := cc) (p := cPool) (by decide) (by decide)
+    (ordered_of_check _ (by decide)) (by decide)
 
 /-! ## weight limit and submission form -/
 
